@@ -920,6 +920,13 @@ func localSliceElems(v ssa.Value) (elems []ssa.Value, known bool) {
 	if !ok {
 		return nil, false
 	}
+	return sliceAppendedElems(ia.X)
+}
+
+// sliceAppendedElems: the slice value is built in its function by appending single elements to an empty slice;
+// returns the appended elements (known=false when the slice has any other origin).
+func sliceAppendedElems(sv ssa.Value) (elems []ssa.Value, known bool) {
+	ia := struct{ X ssa.Value }{sv}
 	seen := map[ssa.Value]bool{}
 	known = true
 	var walk func(s ssa.Value, d int)
